@@ -221,6 +221,50 @@ fn run<C: Cs>(ctx: &Ctx, idx: u64, part: usize, parts: usize) {
     }
 }
 
+/// many honest proofs on small mixed intervals: completeness must not depend on rare shapes of the
+/// Fiat-Shamir challenges (leading zero bytes etc.); each range proof contains four hashed challenges
+fn volume<C: Cs>(ctx: &Ctx, idx: u64, count: usize) {
+    let mut r = ctx.rng("c16v", idx);
+    let Some(st) = Setup::<C>::new(ctx, 1) else {
+        ctx.inconclusive("C16: key generation panicked (C18's business)");
+        return;
+    };
+    let (g, h, n) = (st.cpk.g_bases[0].clone(), st.cpk.h.clone(), st.cpk.N.clone());
+    let items: Vec<(Integer, Integer, Integer, Integer)> = (0..count)
+        .map(|k| {
+            let a = Integer::from(k as u32 % 7);
+            let w = Integer::from(1) << (1 + (k as u32 % 40));
+            let x = Integer::from(&a + rand_int_bits(&mut r, 1 + (k as u32 % 40)));
+            (a, w, x, rand_int_bits(&mut r, C::ln))
+        })
+        .collect();
+    let short = std::sync::atomic::AtomicU64::new(0);
+    par_for_each(&items, 16, |(a, w, x, rr)| {
+        let b = Integer::from(a + w);
+        let e = commit(x, rr, &g, &h, &n);
+        let c = CL03Commitment { value: e, randomness: rr.clone() };
+        let case = format!("{}/volume/w={}b", C::NAME, w.significant_bits());
+        ctx.distinct(&format!("{}/x={}", case, x));
+        let p = ctx.call("Boudot::prove", &case, None, || Ok::<_, ()>(Rp::prove::<Sha256>(x, &c, &g, &h, &n, a, &b)));
+        let Some(p) = p.value else {
+            ctx.violation("C16:prove-panicked-for-in-range-value", json!({"case":case,"a":ihex(a),"b":ihex(&b),"x":ihex(x)}));
+            return;
+        };
+        let v = ctx.call("Boudot::verify", &case, None, || Ok::<_, ()>(p.verify::<Sha256>(&g, &h, &n, a, &b)));
+        if v.value != Some(true) {
+            let j = serde_json::to_value(&p).unwrap();
+            let ch: Vec<u32> = leaves(&j).iter().filter(|(p, _)| p.ends_with("/challenge") || p.ends_with("/C")).map(|(_, v)| v.significant_bits()).collect();
+            ctx.violation("C16:honest-proof-rejected", json!({"case":case,"a":ihex(a),"b":ihex(&b),"x":ihex(x),"challenge_bit_lengths":ch}));
+        }
+        let j = serde_json::to_value(&p).unwrap();
+        if leaves(&j).iter().any(|(p, v)| (p.ends_with("/challenge") || p.ends_with("/C")) && v.significant_bits() <= 248) {
+            short.fetch_add(1, std::sync::atomic::Ordering::Relaxed);
+        }
+    });
+    ctx.count("volume_honest_proofs", count as u64);
+    ctx.count("volume_proofs_with_a_short_challenge(<=248 bits)", short.load(std::sync::atomic::Ordering::Relaxed));
+}
+
 pub fn scenarios(ctx: &Ctx) -> Vec<Scenario> {
     use zkryptium::cl03::ciphersuites::{CL1024Sha256, CL2048Sha256};
     let mut v = Vec::new();
@@ -231,5 +275,7 @@ pub fn scenarios(ctx: &Ctx) -> Vec<Scenario> {
     for p in 0..parts {
         v.push(scenario(format!("CL1024/part{p}"), move |c| run::<CL1024Sha256>(c, p as u64, p, parts)));
     }
+    let count = ctx.t(1500usize, 12000usize);
+    v.push(scenario("CL1024/volume", move |c| volume::<CL1024Sha256>(c, 900, count)));
     v
 }
